@@ -29,7 +29,7 @@ static _supla_int_t verif_action_trigger(void *srpc, TDS_ActionTrigger *at);
 #undef srpc_ds_async_action_trigger
 static _supla_int_t verif_action_trigger(void *srpc, TDS_ActionTrigger *at) {
   _supla_int_t r = srpc_ds_async_action_trigger(srpc, at);
-  if (verif_call_log) sdk_out("CALL at %u %d", at->ChannelNumber, r != 0);
+  if (verif_call_log) sdk_out("CALL at %u %d %u %llu", at->ChannelNumber, r != 0, (unsigned)at->ActionTrigger, (unsigned long long)sdk_now_us);
   return r;
 }
 static _supla_int_t verif_value_changed(void *srpc, unsigned char ch, char *value) {
@@ -331,6 +331,25 @@ int main(int argc, char **argv) {
       } else if (!strcmp(op, "intype") && ops_ntok == 3 && !inited) {
         int i = atoi(ops_tok[1]);
         if (i >= 0 && i < 7) fw_board.inputs[i].type = atoi(ops_tok[2]);
+      } else if (!strcmp(op, "incap") && ops_ntok == 4 && !inited) { /* input i: action-trigger channel, capabilities */
+        int i = atoi(ops_tok[1]);
+        if (i >= 0 && i < 7) { fw_board.inputs[i].channel = atoi(ops_tok[2]); fw_board.inputs[i].at_cap = strtoul(ops_tok[3], 0, 10); }
+      } else if (!strcmp(op, "inrelay") && ops_ntok == 3 && !inited) { /* input i: gpio of the relay it controls (255 none) */
+        int i = atoi(ops_tok[1]);
+        if (i >= 0 && i < 7) fw_board.inputs[i].relay_gpio = atoi(ops_tok[2]);
+      } else if (!strcmp(op, "inlog") && ops_ntok == 2) {
+        fw_hook_input_log = atoi(ops_tok[1]);
+      } else if (!strcmp(op, "attrig") && ops_ntok == 3 && inited) { /* the server's list of active actions for input i */
+        int i = atoi(ops_tok[1]);
+        if (i < 0 || i >= INPUT_MAX_COUNT) sdk_out("BADOP");
+        else {
+          supla_esp_input_set_active_triggers(&supla_input_cfg[i], (unsigned)strtoul(ops_tok[2], 0, 10));
+          sdk_out("ATCFG %d active=%u max=%u relay=%u now=%llu", i, (unsigned)supla_input_cfg[i].active_triggers, supla_input_cfg[i].max_clicks,
+                  supla_input_cfg[i].relay_gpio_id, (unsigned long long)sdk_now_us);
+        }
+      } else if (!strcmp(op, "attimes") && ops_ntok == 3 && inited) { /* hold and multi-click time in ms */
+        supla_esp_input_set_hold_time_ms(atoi(ops_tok[1]));
+        supla_esp_input_set_multiclick_time_ms(atoi(ops_tok[2]));
       } else if (!strcmp(op, "calllog") && ops_ntok == 2) {
         verif_call_log = atoi(ops_tok[1]); fw_hook_relay_log = verif_call_log;
       } else if (!strcmp(op, "inflags") && ops_ntok == 3 && !inited) {
@@ -586,6 +605,25 @@ int main(int argc, char **argv) {
         dcstate();
       } else if (!strcmp(op, "dcstate")) {
         dcstate();
+      } else if (!strcmp(op, "incap") && ops_ntok == 4 && !inited) { /* input i: action-trigger channel, capabilities */
+        int i = atoi(ops_tok[1]);
+        if (i >= 0 && i < 7) { fw_board.inputs[i].channel = atoi(ops_tok[2]); fw_board.inputs[i].at_cap = strtoul(ops_tok[3], 0, 10); }
+      } else if (!strcmp(op, "inrelay") && ops_ntok == 3 && !inited) { /* input i: gpio of the relay it controls (255 none) */
+        int i = atoi(ops_tok[1]);
+        if (i >= 0 && i < 7) fw_board.inputs[i].relay_gpio = atoi(ops_tok[2]);
+      } else if (!strcmp(op, "inlog") && ops_ntok == 2) {
+        fw_hook_input_log = atoi(ops_tok[1]);
+      } else if (!strcmp(op, "attrig") && ops_ntok == 3 && inited) { /* the server's list of active actions for input i */
+        int i = atoi(ops_tok[1]);
+        if (i < 0 || i >= INPUT_MAX_COUNT) sdk_out("BADOP");
+        else {
+          supla_esp_input_set_active_triggers(&supla_input_cfg[i], (unsigned)strtoul(ops_tok[2], 0, 10));
+          sdk_out("ATCFG %d active=%u max=%u relay=%u now=%llu", i, (unsigned)supla_input_cfg[i].active_triggers, supla_input_cfg[i].max_clicks,
+                  supla_input_cfg[i].relay_gpio_id, (unsigned long long)sdk_now_us);
+        }
+      } else if (!strcmp(op, "attimes") && ops_ntok == 3 && inited) { /* hold and multi-click time in ms */
+        supla_esp_input_set_hold_time_ms(atoi(ops_tok[1]));
+        supla_esp_input_set_multiclick_time_ms(atoi(ops_tok[2]));
       } else if (!strcmp(op, "calllog") && ops_ntok == 2) {
         verif_call_log = atoi(ops_tok[1]); fw_hook_relay_log = verif_call_log;
       } else if (!strcmp(op, "staircase") && ops_ntok == 4) { /* channel Time2(ms) StaircaseButtonType */
@@ -616,6 +654,7 @@ int main(int argc, char **argv) {
       sdk_dead = 0; /* decision probes continue after the (simulated) restart */
       sdk_quiet_gpio = 0;
     }
+    if (fw_hook_input_log) sdk_out("TNOW %llu", (unsigned long long)sdk_now_us);
     ops_done();
   }
   return 0;
